@@ -194,17 +194,20 @@ func (r *Resolver) getIDValue(g *Scope, extra *parser.ConstValueExtra) (v string
 // ResolveConst returns the initialization code for a constant or a default value.
 // The type t must be a parser.Type associated with g.
 func (r *Resolver) ResolveConst(g *Scope, name string, t *parser.Type, v *parser.ConstValue) (Code, error) {
-	str, err := r.resolveConst(g, name, t, v)
+	str, err := r.resolveConst(g, g, name, t, v)
 	return Code(str), err
 }
 
-func (r *Resolver) resolveConst(g *Scope, name string, t *parser.Type, v *parser.ConstValue) (string, error) {
+// resolveConst renders the value v of type t. The value v is associated with g
+// while the type t is associated with tg: they differ inside a literal of a
+// struct-like that is defined in an included IDL.
+func (r *Resolver) resolveConst(g, tg *Scope, name string, t *parser.Type, v *parser.ConstValue) (string, error) {
 	switch t.Category {
 	case parser.Category_Bool:
 		return r.onBool(g, name, t, v)
 
 	case parser.Category_Byte, parser.Category_I16, parser.Category_I32, parser.Category_I64:
-		return r.onInt(g, name, t, v)
+		return r.onInt(g, tg, name, t, v)
 
 	case parser.Category_Double:
 		return r.onDouble(g, name, t, v)
@@ -216,13 +219,13 @@ func (r *Resolver) resolveConst(g *Scope, name string, t *parser.Type, v *parser
 		return r.onEnum(g, name, t, v)
 
 	case parser.Category_Set, parser.Category_List:
-		return r.onSetOrList(g, name, t, v)
+		return r.onSetOrList(g, tg, name, t, v)
 
 	case parser.Category_Map:
-		return r.onMap(g, name, t, v)
+		return r.onMap(g, tg, name, t, v)
 
 	case parser.Category_Struct, parser.Category_Union, parser.Category_Exception:
-		return r.onStructLike(g, name, t, v)
+		return r.onStructLike(g, tg, name, t, v)
 	}
 	return "", fmt.Errorf("type error: '%s' was declared as type %s but got value[%v] of category[%s]", name, t, v, t.Category)
 }
@@ -249,7 +252,7 @@ func (r *Resolver) onBool(g *Scope, name string, t *parser.Type, v *parser.Const
 	return "", errTypeMissMatch(name, t, v)
 }
 
-func (r *Resolver) onInt(g *Scope, name string, t *parser.Type, v *parser.ConstValue) (string, error) {
+func (r *Resolver) onInt(g, tg *Scope, name string, t *parser.Type, v *parser.ConstValue) (string, error) {
 	switch v.Type {
 	case parser.ConstType_ConstInt:
 		val := v.TypedValue.GetInt()
@@ -263,7 +266,7 @@ func (r *Resolver) onInt(g *Scope, name string, t *parser.Type, v *parser.ConstV
 			return "0", nil
 		}
 		if val, ok := r.getIDValue(g, v.Extra); ok {
-			goType, _ := r.getTypeName(g, t)
+			goType, _ := r.getTypeName(tg, t)
 			val = fmt.Sprintf("%s(%s)", goType, val)
 			return val, nil
 		}
@@ -334,8 +337,8 @@ func (r *Resolver) onEnum(g *Scope, name string, t *parser.Type, v *parser.Const
 	return "", fmt.Errorf("expect const value for %q is a int or enum, got %+v", name, v)
 }
 
-func (r *Resolver) onSetOrList(g *Scope, name string, t *parser.Type, v *parser.ConstValue) (string, error) {
-	goType, err := r.getTypeName(g, t)
+func (r *Resolver) onSetOrList(g, tg *Scope, name string, t *parser.Type, v *parser.ConstValue) (string, error) {
+	goType, err := r.getTypeName(tg, t)
 	if err != nil {
 		return "", err
 	}
@@ -344,7 +347,7 @@ func (r *Resolver) onSetOrList(g *Scope, name string, t *parser.Type, v *parser.
 	case parser.ConstType_ConstList:
 		elemName := "element of " + name
 		for _, elem := range v.TypedValue.GetList() {
-			str, err := r.resolveConst(g, elemName, t.ValueType, elem)
+			str, err := r.resolveConst(g, tg, elemName, t.ValueType, elem)
 			if err != nil {
 				return "", err
 			}
@@ -366,8 +369,8 @@ func (r *Resolver) onSetOrList(g *Scope, name string, t *parser.Type, v *parser.
 	return goType + "{}", nil
 }
 
-func (r *Resolver) onMap(g *Scope, name string, t *parser.Type, v *parser.ConstValue) (string, error) {
-	goType, err := r.getTypeName(g, t)
+func (r *Resolver) onMap(g, tg *Scope, name string, t *parser.Type, v *parser.ConstValue) (string, error) {
+	goType, err := r.getTypeName(tg, t)
 	if err != nil {
 		return "", err
 	}
@@ -376,12 +379,12 @@ func (r *Resolver) onMap(g *Scope, name string, t *parser.Type, v *parser.ConstV
 	case parser.ConstType_ConstMap:
 		for _, mcv := range v.TypedValue.Map {
 			keyName := "key of " + name
-			key, err := r.resolveConst(g, keyName, r.bin2str(t.KeyType), mcv.Key)
+			key, err := r.resolveConst(g, tg, keyName, r.bin2str(t.KeyType), mcv.Key)
 			if err != nil {
 				return "", err
 			}
 			valName := "value of " + name
-			val, err := r.resolveConst(g, valName, t.ValueType, mcv.Value)
+			val, err := r.resolveConst(g, tg, valName, t.ValueType, mcv.Value)
 			if err != nil {
 				return "", err
 			}
@@ -402,8 +405,8 @@ func (r *Resolver) onMap(g *Scope, name string, t *parser.Type, v *parser.ConstV
 	return goType + "{}", nil
 }
 
-func (r *Resolver) onStructLike(g *Scope, name string, t *parser.Type, v *parser.ConstValue) (string, error) {
-	goType, err := r.getTypeName(g, t)
+func (r *Resolver) onStructLike(g, tg *Scope, name string, t *parser.Type, v *parser.ConstValue) (string, error) {
+	goType, err := r.getTypeName(tg, t)
 	if err != nil {
 		return "", err
 	}
@@ -420,7 +423,7 @@ func (r *Resolver) onStructLike(g *Scope, name string, t *parser.Type, v *parser
 	}
 
 	// get the target struct-like with typedef dereferenced
-	file, st, err := r.getStructLike(g, t)
+	file, st, err := r.getStructLike(tg, t)
 	if err != nil {
 		return "", err
 	}
@@ -446,7 +449,7 @@ func (r *Resolver) onStructLike(g *Scope, name string, t *parser.Type, v *parser
 		}
 
 		key := file.StructLike(st.Name).Field(f.Name).GoName().String()
-		val, err := r.resolveConst(file, st.Name+"."+f.Name, f.Type, mcv.Value)
+		val, err := r.resolveConst(g, file, st.Name+"."+f.Name, f.Type, mcv.Value)
 		if err != nil {
 			return "", err
 		}
